@@ -549,7 +549,11 @@ def replay_cases(worker, cases, seed=0, jobs=16, chunk=1500, env=None,
     """cases: path of an ndjson file (preferred: parsed in the worker processes) or an iterable of case dicts.
     Returns (stats, failures)."""
     if isinstance(cases, str):
-        chunks = _file_chunks(cases, chunk, max_cases)
+        # (the file is in canonical -- sorted -- order: a cap on the number of cases must not mean "the first N",
+        #  it is an evenly spaced sample like sample_cases)
+        chunks = _file_chunks(cases, chunk, None)
+        if max_cases:
+            sample_cases = min(sample_cases, max_cases) if sample_cases else max_cases
     else:
         chunks = []
         cur = []
